@@ -124,12 +124,23 @@ def Server.joinFresh (cfg : Cfg) (srv : Server) (c rid ots : Nat) (target : Join
     ({ srv with ids := g, uuidCur := srv.uuidCur + 1, sessions := srv.sessions ++ [s'], gauge := srv.gauge + 1 },
      joinDeliveries cfg s' p rid ots, .ok)
 
+/-- does the join target name an existing session, or ask for a new one? -/
+def Server.resolves (srv : Server) : JoinTarget → Bool
+  | .new => true
+  | .id n => (srv.findSession n).isSome
+  | .bogus => false
+
 def Server.join (cfg : Cfg) (srv : Server) (c rid ots : Nat) (target : JoinTarget) (hint : Nat) : SRes :=
   match srv.locate c with
   | some (s, p) =>
     if target == .id s.id then
       -- refused, but still joined: the module pass of `handleMessage` runs on the join message
       (srv, (c, Out.error rid ecAlreadyJoined)
+            :: (if cfg.vikja then [(c, Out.vikjaState s.actions)] else [])
+            ++ (if cfg.odal then [(c, Out.odalState s.assets)] else []), .ok)
+    else if !srv.resolves target then
+      -- the lookup precedes the departure: a refused join changes nothing (the module pass still runs)
+      (srv, (c, Out.error rid ecNotFound)
             :: (if cfg.vikja then [(c, Out.vikjaState s.actions)] else [])
             ++ (if cfg.odal then [(c, Out.odalState s.assets)] else []), .ok)
     else
